@@ -23,5 +23,11 @@ PROPS = {
         thorough=[G("M_C01a"), G("M_C01b")],
         own=[parts("Outcome", "ErrClass", "Data", "Base", "Desc", "Catalog")],
         design_ref="DESIGN.md 6 C01",
+        level_text="Every (state, operation) transition of a bounded key->item model (3 keys, Put/Update/Delete/Get menus) is "
+                   "enumerated by TLC, replayed on both real clients, and every answer plus the full post-state (GetItem of every "
+                   "key, Scan, DescribeTable) is judged by TLC against the specification; exhaustive within the bounds.",
     ),
 }
+
+# properties deliberately not claimed, with the reason (none so far: unbuilt ones get a work-in-progress reason)
+NOT_CLAIMED = {}
